@@ -32,7 +32,9 @@ META = dict(
          "opcode, item counter, gas, stack/invocation/try depth) must equal the fresh run's; init_state is the specification of "
          "what Reset re-establishes (C13_reset_is_init). Slot initialisation: all ordered pairs (and random triples) of INITSSLOT/INITSLOT "
          "with counts from {0,1,2,255} in one context and across CALL, followed by loads/stores at index 0, n-1, n; two scripts "
-         "loaded on one VM (statics per script); exact fault conditions proved (C13_initslot_once, C13_initsslot_once).",
+         "loaded on one VM (statics per script); exact fault conditions proved (C13_initslot_once, C13_initsslot_once). Aliasing: every script runs from the same byte slice "
+         "(bytes compared afterwards); producer x boundary operand x in-place mutator templates with second references read back; "
+         "freshness of results proved (C13_results_keep_buffers, C13_mutator_one_buffer, C13_buffer_results_fresh).",
     note="Correspondence, not translation: vm.go is tied to the specification only on the generated scripts. Trusted: the "
          "hand-written specification, the generated tables' translator, the two serialisers, Coq kernel/vm_compute, the harness.",
 )
